@@ -74,6 +74,9 @@ void harness(void) {
   CHECK(L2 == post.L, "MODEL: post-state href fits the modelled buffer");
   if (L2 <= BN) {
     CHECK(valid, "the library's own validate() accepts the object after the operation");
+#ifdef OP_CLEAR_PATHNAME
+    inv_relax_path = 1;
+#endif
     CHECK(INV(&post), "representation invariant (offset grammar, record invariants) holds after the operation");
 #include "step_ops.h"
     REACH("the operation was executed from a state of this shape");
